@@ -217,5 +217,10 @@ func TestVerif_C09(t *testing.T) {
 			client: func(p *ePair, k int, st *Stream) { c09Flush(st, 1, 0, 20); c09Flush(st, 1, 20, 20) },
 			onData: func(st *Stream, r BufferReader) { r.ReadBytes(3); st.Close() }}, 1, 2),
 	}
-	runBScenarios(t, "C09", scs)
+	w := newWorker(t, "C09")
+	defer w.finish()
+	if runHistories(w, "C09", 5, 6) {
+		return
+	}
+	runBScenariosW(w, "C09", scs)
 }
